@@ -53,6 +53,9 @@ pub struct WorldSpec {
     pub gitignore: Vec<String>,
     /// initialise a git repository and commit everything
     pub git: bool,
+    /// host name of the lock server in the configuration (default 127.0.0.1)
+    #[serde(default)]
+    pub lock_host: Option<String>,
 }
 
 impl WorldSpec {
@@ -96,7 +99,7 @@ impl WorldSpec {
             "max_retained_runs": self.max_retained_runs,
             "targets": targets,
             "server": {
-                "lock": {"host": "127.0.0.1", "port": lock_port, "bind_timeout_ms": 1000},
+                "lock": {"host": self.lock_host.clone().unwrap_or_else(|| "127.0.0.1".to_string()), "port": lock_port, "bind_timeout_ms": 1000},
                 "log": {"host": "127.0.0.1", "port": log_port, "bind_timeout_ms": 1000}
             }
         });
